@@ -590,6 +590,41 @@ impl Plan {
                 }
             }
         }
+        // complete control frames (Close, Ping, Pong) whose payload sits around the 125-byte limit RFC 6455 gives them and around
+        // the length-form boundaries, unmasked and masked, each followed by a text frame: the frame decoder does not enforce the
+        // limit, so whatever echoes or stores such a payload (the Pong / Close reply) meets more than 125 bytes.  Always on.
+        // Added after a seeded fixed 127-byte reply buffer was missed (round 7): control frames only came empty or 3 bytes long.
+        {
+            let mut v: Vec<(&'static str, String, Vec<u8>)> = Vec::new();
+            for (op, name) in [(0x88u8, "close"), (0x89, "ping"), (0x8a, "pong")] {
+                for len in [0usize, 1, 2, 124, 125, 126, 127, 128, 300, 65535, 65536, 70000] {
+                    for masked in [false, true] {
+                        let mut f = vec![op];
+                        let mb = if masked { 0x80u8 } else { 0 };
+                        if len < 126 { f.push(mb | len as u8); }
+                        else if len < 65536 { f.push(mb | 126); f.extend_from_slice(&(len as u16).to_be_bytes()); }
+                        else { f.push(mb | 127); f.extend_from_slice(&(len as u64).to_be_bytes()); }
+                        let key = [0x11u8, 0x22, 0x33, 0x44];
+                        if masked { f.extend_from_slice(&key); }
+                        // a Close payload starts with a status code (1000); the rest is filler
+                        let mut pl: Vec<u8> = (0..len).map(|i| b'a' + (i % 23) as u8).collect();
+                        if op == 0x88 && len >= 2 { pl[0] = 0x03; pl[1] = 0xe8; }
+                        if masked { for (i, b) in pl.iter_mut().enumerate() { *b ^= key[i % 4]; } }
+                        f.extend(pl);
+                        f.extend_from_slice(&[0x81, 0x01, b'a']);
+                        let fam = format!("ctl-{}-{}{}", name, len, if masked { "-masked" } else { "" });
+                        for p in ["wsframe", "wsmsg", "wsmsgnb"] {
+                            v.push((p, fam.clone(), f.clone()));
+                        }
+                    }
+                }
+            }
+            for (p, fam, b) in v {
+                if self.alpha.contains_key(p) && !emit(p, &fam, b, &mut id) {
+                    return;
+                }
+            }
+        }
         if self.big {
             let mut v: Vec<(&'static str, &str, Vec<u8>)> = Vec::new();
             let r64k = rng.bytes(65536);
